@@ -15,6 +15,7 @@ sequence, not by coarse virtual time).
 
 from __future__ import annotations
 
+import asyncio
 import hashlib
 import pathlib
 
@@ -36,7 +37,7 @@ RULE = ("each run is a history of 1-6 client operations (get with/without query,
         "reader) vectors; non-trivial = at least one changed or unreadable connection occurred")
 PROBES = ["impostor_connection", "unreadable_connection", "impostor_never_reads",
           "impostor_lazy", "upload_to_impostor", "redirect_hop_to_impostor", "ordering_checked",
-          "large_upload", "sql_fault_during_operation"]
+          "large_upload", "sql_fault_during_operation", "overlapping_operations_one_endpoint"]
 COMPONENTS = {
     "real": ["nauyaca.client.session / client.protocol", "nauyaca.security.tofu on a real sqlite "
              "file behind the SQL seam", "asyncio sslproto + OpenSSL"],
@@ -64,7 +65,7 @@ def run_one(ch):
     model = {}
     hist = []
     st = {"imp": 0, "unread": 0, "never": 0, "lazy": 0, "upimp": 0, "redirimp": 0, "order": 0,
-          "large": 0, "sqlfault": 0}
+          "large": 0, "sqlfault": 0, "overlap": 0}
     judged = []
 
     def endpoint(label):
@@ -87,9 +88,43 @@ def run_one(ch):
             hist.append(f"pre-pin {key[0]}:{key[1]} {c}")
         forced_key = None
         for i in range(nops):
-            op = ch.choose("op", 5, [5, 5, 2, 4, 2])
+            op = ch.choose("op", 6, [5, 5, 2, 4, 2, 2])
             if forced_key is not None:
                 op = 0
+            if op == 5:
+                # two overlapping operations on one endpoint that presents c1 to the first
+                # and c2 to the second connection
+                key = endpoint("ov")
+                if w.redirect.get(key) is not None:
+                    continue
+                c1 = ch.pick("ov1", fx.SERVER_CERTS)
+                c2 = ch.pick("ov2", fx.SERVER_CERTS)
+                w.servers[key].cert_queue = [c1, c2]
+                kinds = [ch.pick("ovk1", ["get", "upload"]), ch.pick("ovk2", ["get", "upload"])]
+                hist.append(f"overlapping {kinds[0]}+{kinds[1]} on {key[0]}:{key[1]} presenting {c1},{c2}")
+                marks = w.marks()
+                seam_mark = len(SEAM.log)
+
+                async def ov(kind, j):
+                    try:
+                        if kind == "get":
+                            await client.get(url_of(key, f"/ov{i}?token=SECRETOV{j}"))
+                        else:
+                            await client.upload(url_of(key, f"/up/ov{i}.txt"), b"SECRETOV-content" * 50,
+                                                token=f"tok-SECRETOV{j}")
+                    except Exception:  # noqa
+                        pass
+                await asyncio.gather(ov(kinds[0], 0), ov(kinds[1], 1))
+                w.servers[key].cert_queue = []
+                real = read_table(w.db_path)
+                pin = real.get(key)
+                new = sorted(w.conns_since(marks), key=lambda kp: kp[1].gseq_accept)
+                plan = [(key, ("match" if pin == fx.fp(p.cert_presented) else "changed")) for _, p in new]
+                st["overlap"] += 1
+                judged.append((hist[-1], "get", plan, new, ("err", "overlap"), seam_mark))
+                model.clear()
+                model.update(real)
+                continue
             if op == 3:
                 key = endpoint("sw")
                 c = CERTS[ch.choose("swcert", len(CERTS), CW)]
@@ -246,7 +281,8 @@ def run_one(ch):
                      "impostor_never_reads": "never", "impostor_lazy": "lazy",
                      "upload_to_impostor": "upimp", "redirect_hop_to_impostor": "redirimp",
                      "ordering_checked": "order", "large_upload": "large",
-                     "sql_fault_during_operation": "sqlfault"}.items():
+                     "sql_fault_during_operation": "sqlfault",
+                     "overlapping_operations_one_endpoint": "overlap"}.items():
         if st[k]:
             res.stats[probe] += 1
     res.stats["operations"] += len(judged)
